@@ -228,7 +228,9 @@ def walk_traces(exe, wd, prop, tier):
     sd = 0 if not thorough else seed()
     for i, j in enumerate(fam):
         jobs.append({"id": "LW-%s" % j["id"], "layout": j["layout"], "keys": "auto", "maxheld": 4 + i % 2, "steps": 200 if not thorough else 400, "seed": 1000 * sd + i,
-                     "via": "loop", "out": "looptrace", "noise": i % 4, "ra_pct": 4 if prop in ("C12", "C06") else 2})
+                     "via": "loop", "out": "looptrace", "noise": i % 4, "ra_pct": 4 if prop in ("C12", "C06") else 2,
+                     # every second history with several events per wake-up and interrupted waits (harness/src/looprun.rs: walk_run)
+                     "wake": (1 + i) if (i // 4) % 2 == 1 else 0})
     traces = []
     nch = max(1, min(PROCS, len(jobs) // 8))
     for i in range(nch):
